@@ -26,6 +26,7 @@ Section Run.
   | OSnapP (i : nat)           (* snapshot up to empty sparse bins *)
   | OClone (i : nat)           (* push pickle.loads(pickle.dumps(pool[i])) *)
   | OView (i : nat) (lo hi : option T) (xs : list T)   (* num_bins / bin_edges / bin_centers / bin_entries *)
+  | ODf (a : agg) (rows : list (datum N * T))   (* make_histograms: the tree of the feature, filled from the frame *)
   | OSnapAll.
 
   Definition dummy : agg := Leaf (LCount TId) no_quantity (leaf_zero (LCount TId)).
@@ -85,6 +86,7 @@ Section Run.
     | OSnapP i => (p, snap (prune (get p i)))
     | OClone i => let c := get p i in (p ++ [c], 0 :: snap c)
     | OView i lo hi xs => (p, tok_views (views_of (get p i) lo hi xs))
+    | ODf a rows => let '(a', r) := fillnp a rows in (p ++ [a'], oc r :: snap (prune a'))
     | OSnapAll => (p, List.concat (map (fun a => 7777 :: snap a) p))
     end.
 
